@@ -278,11 +278,15 @@ impl<T: SampleX> SincInterpolator<T> for RangeProbe<T> {
 /// base value of the index signal used with the LinearProbe: x[n] = INDEX_BASE + n, so that the
 /// zero pre-roll of a fresh resampler is distinguishable from supplied frames
 pub const INDEX_BASE: f64 = 1000.0;
-/// A poisoned window reports an instant that is off by PROBE_POISON / oversampling frames. A point
-/// whose blend weight is at rounding level (<= ~4 ulp(position) x oversampling, as happens when the
-/// position is within rounding of a grid point) then moves the output by <= 32 ulp, below the
-/// spacing tolerance of 256 ulp; any real weight (>= 1e-6) moves it by orders of magnitude more.
-pub const PROBE_POISON: f64 = 8.0;
+/// A poisoned window reports an instant that is off by PROBE_POISON / oversampling frames. The weight
+/// of a point in the blend is at rounding level when the position is within its accumulated rounding
+/// error of a grid point; that error grows with the number N of steps in the chunk (adding the same step
+/// N times in one binade repeats the same rounding error), up to N/2 ulp(position), i.e. a weight of up to
+/// N/2 ulp x oversampling. With PROBE_POISON = 2^-10 such a point moves the output by less than
+/// N/2048 ulp, below the spacing tolerance of 256 ulp for every N the generators produce (< 2^17),
+/// while a point with real weight w moves it by w / (1024 x oversampling) frames, and a window start that
+/// is itself stale by the full data shift.
+pub const PROBE_POISON: f64 = 1.0 / 1024.0;
 
 pub struct LinearProbe {
     len: usize,
